@@ -69,6 +69,18 @@ func (g *gen) object(depth int, inlineBody bool) M {
 			s = g.object(depth+1, inlineBody)
 		case k == 7:
 			s = M{"type": "array", "items": g.prim()}
+			switch g.r.IntN(6) {
+			case 0:
+				s = M{"type": "array", "items": M{"type": "array", "items": g.prim()}} // nested array
+			case 1:
+				if depth < 2 {
+					s = M{"type": "object", "additionalProperties": M{"type": "array", "items": g.prim()}} // map of arrays
+				}
+			case 2:
+				if depth < 2 {
+					s = M{"type": "object", "additionalProperties": M{"$ref": g.componentObject(depth + 1)}} // map of objects
+				}
+			}
 		case k == 8 && depth < 2:
 			s = M{"$ref": g.componentObject(depth + 1)}
 		default:
